@@ -91,6 +91,9 @@ def ob_monotonic(env, want=None):
     if want is not None:
         concave_cond = L < 0.5 * (du + dl) * N / Nn - 1.0e-8 * L
         env.assume(concave_cond if want == "concave" else (~concave_cond if env.mode == "sym" else not concave_cond), "case selection")
+    # z3 5.x in-process overruns its time limits on these UF+NRA queries (nlsat does not poll the interrupt); the system z3 4.8.12
+    # binary decides them in seconds and runs as a subprocess with a hard limit: ask it first
+    env.external_first = env.external_only = True
     r = _region()
     try:
         f, roots = _call(env, r.getMonotonicPoloidalDistanceFunc, L, N, Nn, d_lower=dl, d_upper=du)
@@ -257,7 +260,7 @@ for _case in ("convex", "concave"):
                           stubs=["brentq -> root contract", "log uninterpreted + axioms"],
                           desc="%s case: s(0)=0, s(N)=L, end gradients d_lower/d_upper in normalised index, straight-line extrapolation%s" % (
                               _case, ", ds/di>0 on [0,N], nesting" if _case == "convex" else ""),
-                          bounds="L, N_norm, w, d_lower, d_upper > 0 real", timeout_ms=5000, final_timeout_ms=20000, wall_s=240))
+                          bounds="L, N_norm, w, d_lower, d_upper > 0 real", timeout_ms=5000, final_timeout_ms=4000, wall_s=900))
 for (bl, al, bu, au) in [(1, 0, 0, 0), (1, 1, 0, 0), (0, 0, 1, 0), (0, 0, 1, 1), (1, 0, 1, 0), (1, 1, 1, 0), (1, 0, 1, 1), (1, 1, 1, 1)]:
     nm = "sqrt_%s%s_%s%s" % ("b" if bl else "-", "a" if al else "-", "b" if bu else "-", "a" if au else "-")
     OBLIGATIONS.append(Ob(nm, _mk_sqrt(bl, al, bu, au), tier="quick", family="sqrt", encodes=ENCS, stubs=["exp uninterpreted (extrapolations)"],
